@@ -110,8 +110,8 @@ def run_case(case):
     elif kind == "ctx":
         from .C07 import function_before_declaration_scripts
         # (every second script of that family declares the device BEFORE the helper that uses it: devices used only from helpers)
-        pool = corpus.context_scripts(rng_for(PROP, sd, "ctx"), 16) + corpus.collision_scripts(rng_for(PROP, sd, "col"), 36, conflicting_returns=False) + \
-            function_before_declaration_scripts()[1::2] + corpus.helper_only_scripts() + corpus.main_loop_break_scripts()
+        pool = corpus.context_scripts(rng_for(PROP, sd, "ctx"), 16) + corpus.collision_scripts(rng_for(PROP, sd, "col"), 36, conflicting_returns=False, shadow_helpers=False) + \
+            function_before_declaration_scripts()[1::2] + corpus.helper_only_scripts() + corpus.main_loop_break_scripts() + corpus.twice_scripts()
         script = pool[idx % len(pool)]
     elif kind == "lists":
         from ..gen import lists
@@ -159,9 +159,9 @@ def main() -> int:
     t = tier()
     sd = seed()
     if t == "quick":
-        cases = [("prog", i, sd, i % 8 == 0) for i in range(300)] + [("device", i, sd, i % 3 == 0) for i in range(180)] + [("strings", i, sd, i % 2 == 0) for i in range(120)] + [("poly", i, sd, i % 4 == 0) for i in range(120)] + [("ctx", i, sd, i % 4 == 0) for i in range(80)] + [("lists", i, sd, i % 4 == 0) for i in range(60)]
+        cases = [("prog", i, sd, i % 8 == 0) for i in range(300)] + [("device", i, sd, i % 3 == 0) for i in range(180)] + [("strings", i, sd, i % 2 == 0) for i in range(120)] + [("poly", i, sd, i % 4 == 0) for i in range(120)] + [("ctx", i, sd, i % 4 == 0) for i in range(190)] + [("lists", i, sd, i % 4 == 0) for i in range(60)]
     else:
-        cases = [("prog", i, sd, i % 4 == 0) for i in range(3000)] + [("device", i, sd, i % 2 == 0) for i in range(2000)] + [("strings", i, sd, True) for i in range(1000)] + [("poly", i, sd, i % 2 == 0) for i in range(1000)] + [("ctx", i, sd, True) for i in range(80)] + [("lists", i, sd, i % 2 == 0) for i in range(600)]
+        cases = [("prog", i, sd, i % 4 == 0) for i in range(3000)] + [("device", i, sd, i % 2 == 0) for i in range(2000)] + [("strings", i, sd, True) for i in range(1000)] + [("poly", i, sd, i % 2 == 0) for i in range(1000)] + [("ctx", i, sd, True) for i in range(190)] + [("lists", i, sd, i % 2 == 0) for i in range(600)]
     for case, st, res in run_cases(run_case, cases):
         if st != "ok":
             rep.inconclusive_because(f"case {case[:2]} failed: {res[-300:]}")
